@@ -35,6 +35,7 @@ type sys struct {
 	next     int
 	sentinel *block.MagicBlock
 	pruned   int64 // highest successfully pruned point, -1 if none
+	dead     bool  // Chain.GetMagicBlock panicked: it holds its read lock for ever, the chain value is unusable
 }
 
 func newSys(rc *rec.Recorder) *sys {
@@ -86,6 +87,9 @@ func (s *sys) rounds() []int64 {
 }
 
 func (s *sys) put(start int64, viaChain bool) {
+	if s.dead {
+		return
+	}
 	s.next++
 	mb := &block.MagicBlock{MagicBlockNumber: int64(s.next), StartingRound: start}
 	s.ids[mb] = s.next
@@ -105,6 +109,9 @@ func (s *sys) put(start int64, viaChain bool) {
 
 // pruneStore calls the store's Prune(p).
 func (s *sys) pruneStore(p int64) {
+	if s.dead {
+		return
+	}
 	var err error
 	before := len(s.rounds())
 	pan := guard(func() { err = s.st.Prune(p) })
@@ -123,6 +130,9 @@ func (s *sys) pruneStore(p int64) {
 // pruneChain calls Chain.PruneRoundStorage keeping `target` entries; the pruned point is the one the
 // chain computes: rounds[count-target-1].
 func (s *sys) pruneChain(target int) {
+	if s.dead {
+		return
+	}
 	rs := s.rounds()
 	p := int64(-1)
 	if target > 0 && len(rs) > target {
@@ -156,6 +166,9 @@ func cls(e int) string {
 }
 
 func (s *sys) query(kind string, q int64) {
+	if s.dead {
+		return
+	}
 	var e int
 	var idx int
 	var pan bool
@@ -173,6 +186,7 @@ func (s *sys) query(kind string, q int64) {
 			return // GetMagicBlock panics on an empty store while holding its read lock: outside the property
 		}
 		pan = guard(func() { e = s.idOf(s.c.GetMagicBlock(q)) })
+		s.dead = pan // the event is logged (and rejected by C40_Floor); the rest of the trace is skipped
 	case "GMBNoOff":
 		pan = guard(func() { e = s.idOf(s.c.GetMagicBlockNoOffset(q)) })
 	case "GLMB":
